@@ -38,6 +38,10 @@ a negative-zero rotation is omitted and reads back as 0 — `Topology.norm`), `j
 JSON, text level (`Model/TopoJsonText.lean`, compared byte for byte with `ToJSON()` by the `topo.jsonraw` records):
 `escape_roundtrip` (`unescape (escape s) = some s` for every byte string: quotes, backslashes, control bytes,
 `<`, `>`, `&`, U+2028/9).
+Observed only (no theorem: the model has ONE serialiser, `serialise`, for both `ToJSON` and `JSONstring`): the clause
+`json.serialisers-differ` (`Spec.Topo.checkSerialisers`) — on every `topo.roundtrip` / `topo.jsonraw` record, also after
+transformations and after changes written into the same object through its exported fields, both serialisers return
+the same bytes.
 -/
 namespace RawPanelVerif.C14
 open RawPanelVerif RawPanelVerif.Topo
@@ -472,5 +476,8 @@ theorem index_key_zero_counterexample :
       t'.hwc.map (Spec.Topo.resolved t') ≠ t.hwc.map (Spec.Topo.resolved t) := by
   refine ⟨_, rfl, ?_⟩
   decide
+
+/-- the two serialisers must agree: the clause that names a difference -/
+example : Spec.Topo.checkSerialisers false = some "json.serialisers-differ" ∧ Spec.Topo.checkSerialisers true = none := by decide
 
 end RawPanelVerif.C14
